@@ -633,9 +633,13 @@ impl DatabaseBuilder {
             }
         }
 
+        // The live segment of a bucket is the highest one that has an events file (the same
+        // rule the writer uses); a directory left behind by a crash before its events file was
+        // created must not turn the real live segment into a sealed one.
         let latest_segments: HashMap<BucketId, SegmentId> =
             segments
                 .iter()
+                .filter(|(_, files)| files.events.is_some())
                 .fold(HashMap::new(), |mut latest, (bucket_segment_id, _)| {
                     latest
                         .entry(bucket_segment_id.bucket_id)
